@@ -137,6 +137,10 @@ def run(tier: str) -> int:
                 vs = vs + [dict(v, form="fluent") for v in vs[:1]]
         elif h % 4 == 0:
             vs = vs + cc.variants_for(s, 0, profile="falsy")[:1] + cc.variants_for(s, 0, sched="hist")[1:]
+        # elements with a hostile __eq__ (equal to everything / not comparable): none of these operators may
+        # compare elements (sequence_equal does, by definition)
+        if s["op"] != "sequence_equal" and (not quick or h % 4 in (1, 2)):
+            vs = vs + cc.variants_for(s, 0, profile="eqall" if h % 2 else "eqraises")[(h // 2) % 2:][:1]
         return vs
 
     # Families are processed end to end (TLC -> grouping -> replay) by a few threads: TLC runs in its own
